@@ -22,14 +22,17 @@ RULE = ("broadband AP contents (random walk + white noise + slow oscillations, n
 ASSUMPTIONS = ["reference low-pass = the converter's own published design (2nd order Butterworth, Wn=0.2 re. AP Nyquist) applied forward-backward to "
                "the WHOLE trace with scipy.signal.sosfiltfilt", "'away from the two file edges' = 50 LF samples (600 AP samples) at either end",
                "1 LSB tolerance: bound < 1 + 1e-3 to absorb the float32 calibration round trip"]
-REQUIRED = {"lf_files_compared": 12, "reruns_same_object": 3, "window_pairs_compared": 6, "sync_columns_compared": 12, "lf_meta_checked": 12, "reference_compared": 12, "int16_wide_contents": 2}
+REQUIRED = {"lf_files_compared": 12, "reruns_same_object": 3, "window_pairs_compared": 6, "sync_columns_compared": 12, "lf_meta_checked": 12, "reference_compared": 12, "int16_wide_contents": 2, "long_cbin_cases": 1}
 CASE_TIMEOUT = 200.0
 MAX_PROCS = 12
 
 
 def gen_cases(seed, tier):
     n = 24 if tier == "quick" else 720
-    return [{"cls": "lfp", "seed": seed * 1000 + i, "_w": 5} for i in range(n)]
+    cases = [{"cls": "lfp", "seed": seed * 1000 + i, "_w": 5} for i in range(n)]
+    # long recordings (several default windows) handed over compressed, with metadata that is off by one sample / written with few decimals
+    cases += [{"cls": "long", "seed": seed * 1000 + 500 + i, "_w": 40} for i in range(1 if tier == "quick" else 12)]
+    return cases
 
 
 def broadband(rng, ns, maxint, wide=False):
@@ -49,12 +52,67 @@ def broadband(rng, ns, maxint, wide=False):
     return np.ascontiguousarray(np.c_[raw, sync])
 
 
+def long_case(case, res, rng, d):
+    import neuropixel
+    import spikeglx
+    kind = "NP2.1"
+    gain = np2.GAIN_PAIRS[int(rng.integers(0, 4))]
+    ns = int(rng.integers(100_000, 150_000))
+    first = case["seed"] % 1000 == 500                              # the first long case of every run fixes the hardest combination, the others draw
+    ns += (1 - ns % 12) % 12 if (first or rng.random() < 0.6) else 0   # one sample past a multiple of 12: the last LF sample stands for a single AP sample
+    delta = -1 if first else int(rng.choice([-1, -1, 1, 0]))
+    sites = G.draw_sites(rng, "NP2.1", 384, "dense")
+    # cheap broadband content: integer random walk + noise, per channel
+    raw = np.cumsum(rng.integers(-40, 41, (ns, 384), dtype=np.int32), axis=0, dtype=np.int32)
+    raw -= (np.arange(ns, dtype=np.int64)[:, None] * (raw[-1][None, :].astype(np.int64)) // ns).astype(np.int32)
+    raw = np.clip(raw + rng.integers(-60, 61, (ns, 384), dtype=np.int32), -8000, 8000).astype(np.int16)
+    raw = np.ascontiguousarray(np.c_[raw, G.sync_words(rng, (ns, 1))])
+    root = d / "long"
+    b, rec = np2.build(rng, root, kind=kind, ns=ns, gain=gain, sites=sites, raw=raw, claim_ns=ns + delta if delta else None)
+    tsec = np2.round_duration(b.with_suffix(".meta"), ns + delta, rec.fs, rng) if rng.random() < 0.7 else None
+    b = np2.compress_original(b, rec, chunk_duration=1.0)
+    label = f"{kind} gain={gain[0]}/{gain[1]} ns={ns} (ns % 12 = {ns % 12}) original=cbin, metadata announces {ns + delta} samples" + (f", fileTimeSecs={tsec}" if tsec else "")
+    res.count("long_cbin_cases")
+    try:
+        conv = neuropixel.NP2Converter(b, post_check=False, compress=False, delete_original=False)
+        st = conv.process()
+        conv.sr.close()
+        res.check(st == 1, "lfp:status", f"{label}: process() returned {st}")
+    except Exception as e:
+        res.exception("lfp:exception", e, label)
+        return
+    f = root / "probe00" / (np2.NAME.replace(".ap", ".lf") + ".bin")
+    if not f.exists():
+        res.violation("lfp:missing-file", f"{label}: {f.name} missing")
+        return
+    nlf = -(-ns // 12)
+    got = np2.read_int16(f, 385)
+    res.count("lf_files_compared")
+    if got.ndim != 2 or got.shape != (nlf, 385):
+        res.violation("lfp:rows", f"{label}: LF file holds {got.shape}, expected ({nlf}, 385) = ceil(n/12) rows")
+        return
+    res.check(np.array_equal(got[:, -1], raw[::12, 384]), "lfp:sync", f"{label}: LF sync column is not every 12th AP sync word", counter="sync_columns_compared")
+    sos = scipy.signal.butter(N=2, Wn=0.2, btype="lowpass", output="sos")
+    cols = rng.choice(384, 24, replace=False)
+    ref = scipy.signal.sosfiltfilt(sos, raw[:, cols].astype(np.float64), axis=0)[::12]
+    dev = np.max(np.abs(got[50:-50][:, cols].astype(np.float64) - ref[50:-50]))
+    res.check(dev < 1 + 1e-3, "lfp:reference", f"{label}: LF differs from low-pass+decimation of the whole trace by {dev:.3f} LSB", counter="reference_compared")
+    sr = spikeglx.Reader(f, sort=False)
+    res.check(sr.type == "lf" and sr.shape == (nlf, 385) and sr.fs == 2500, "lfp:reader-shape", f"{label}: Reader(lf) type={sr.type} shape={sr.shape} fs={sr.fs}", counter="lf_meta_checked")
+    sr.close()
+
+
 def run_case(case):
     import neuropixel
     import spikeglx
     res = Result()
     rng = rng_for(case)
     d = scratch()
+    if case["cls"] == "long":
+        long_case(case, res, rng, d)
+        res.sig = f"long-{case['seed']}"
+        res.nontrivial = True
+        return res
     kind = "NP2.1" if case.get("_orig_i", case["_i"]) % 2 == 0 else "NP2.4"
     gain = np2.GAIN_PAIRS[int(rng.integers(0, 4))]
     ns = int(rng.integers(2500, 9000))
